@@ -335,7 +335,7 @@ def unsat_biased_body(g, rng, n_named=4, p_named=0.8, nested=True, histories=Tru
     allow_dups = rng.random() < 0.08
     def mk_assert():
         f = small_formula()
-        for _ in range(6):
+        for _ in range(25):
             if allow_dups or f not in asserted_ids:
                 break
             f = small_formula()
@@ -546,7 +546,7 @@ def b_itp(job):
         q, t = g.bools[-1], g.bools[0]
         pre = [{"c": "push", "n": 1}]
         if rng.random() < 0.5:
-            pre += [{"c": "assert", "t": tb.app("or", [t, tb.app("not", [t])]), "nm": "lp0", "inner": []}, {"c": "check-sat"}]
+            pre += [{"c": "assert", "t": tb.app("or", [t, tb.app("not", [g.bools[1]])]), "nm": "lp0", "inner": []}, {"c": "check-sat"}]
         other = rng.choice(g.bools[1:-1]) if len(g.bools) > 2 else tb.app("not", [t])     # not the formula asserted later
         pre += [{"c": "assert", "t": tb.app("or", [q, other]), "nm": "lp1", "inner": []}, {"c": "pop", "n": 1}]
         tail = [{"c": "assert", "t": tb.app("or", [q, t]), "nm": "lpa", "inner": []},
@@ -554,6 +554,15 @@ def b_itp(job):
                 {"c": "assert", "t": tb.app("not", [t]), "nm": "lpc", "inner": []}]
         # drop assertions of the random part that mention q, keep the rest
         body = [c for c in body if not (c["c"] == "assert" and q in tb.subterms(c["t"]))]
+        # no formula twice in these families (copies of a formula are a known, different matter)
+        seen_f, body2 = set(), []
+        for c in body:
+            if c["c"] == "assert":
+                if c["t"] in seen_f:
+                    continue
+                seen_f.add(c["t"])
+            body2.append(c)
+        body = body2
         last_check = max((i for i, c in enumerate(body) if c["c"] == "check-sat"), default=len(body) - 1)
         depth_ok = True
         body = pre + body[:last_check] + tail + body[last_check:]
@@ -608,6 +617,11 @@ def bad_commands(g, rng, depth_hint=0):
     out.append(("(set-logic QF_LRA)", "logic set twice"))
     out.append(("(assert 5)", "non-Boolean assertion"))
     if g.num:
+        out.append(("(assert (+ x 1))", "non-Boolean assertion"))
+        out.append(("(assert (ite p0 x y))", "non-Boolean assertion"))
+    if g.uf:
+        out.append(("(assert (f u0))", "non-Boolean assertion"))
+    if g.num:
         out.append(("(assert (= x p0))", "ill-sorted equality"))
         out.append(("(assert (> x))", "arity"))
     if g.uf:
@@ -619,16 +633,22 @@ def b_reject(job):
     """C19: a valid script, and the same script with rejected commands inserted."""
     rng = random.Random(job["seed"])
     g = G.Gen(rng, job["logic"])
-    kind = rng.choice(["models", "cores", "plain"])
+    kind = rng.choice(["models", "cores", "plain", "itp"])
     opts, queries, p_named = [], [], 0.0
     if g.arr and kind == "models":
         kind = "plain"
+    if kind == "itp" and (g.arr or g.dl or job["logic"] not in ("QF_BOOL", "QF_UF", "QF_LRA", "QF_LIA")):
+        kind = "cores"
     if kind == "models":
         opts = _opts("models"); queries = [{"c": "get-model"}]
     elif kind == "cores":
         opts = _opts("cores"); queries = [{"c": "get-unsat-core"}]; p_named = 0.7
     if kind == "cores":
         body = unsat_biased_body(g, rng, queries=queries, p_named=p_named)
+    elif kind == "itp":
+        # interpolation requests refer to assertions by position: a rejected command must not shift anything
+        opts = _opts("itp")
+        body = add_itp_queries(unsat_biased_body(g, rng, p_named=1.0, nested=False), rng)
     else:
         body = G.random_history(g, rng, n_assert=5, queries=queries, min_checks=2, p_define=0.7)
     pre = G.preamble(g, opts)
